@@ -104,6 +104,8 @@ func queryText(t texts, class string) (string, string) {
 		return t.valid, "OpV"
 	case "valid2":
 		return t.valid2, "OpW"
+	case "anonymous":
+		return "{ ping }", "ZZNoSuchOperation"
 	case "validmutation":
 		return t.mutation, "OpM"
 	case "syntaxerror":
